@@ -189,7 +189,10 @@ def run(repo: Repo, rep: Report, tier: str) -> None:
     # ---- positive control: a synthetic generator with one unescaped RAW hole must be flagged
     _positive_control(repo, rep)
     rep.notes.append("hole kinds: RAW/LITERAL need repr; IDENT, TYPEREF_*, CODE, FIELDNAME, CLASSNAME, ENUMNAME, DEFAULT_LITERAL are library-made or identifier-safe")
-
+    # rules of sibling properties that are necessary conditions of this one as well (same rule ids)
+    from ..core.report import Only
+    from . import c01 as _c01
+    _c01._r01_5(repo, Only(rep, {"R01.5"}))
 
 POSITIVE = '''
 def _positive(self, fname, metadata):
